@@ -5,15 +5,22 @@ Every user-callable call site has an exceptional outcome with a symbolic excepti
 exceptional exit the caller receives *that* exception object.  All call indices are covered because loop sites are
 verified from the invariant.  'Nothing left behind' = no write to global state on any path (unit FLOW / C14).
 """
-from props._mainbased import main_property
+from props._mainbased import main_property, selector
+from units import sf_unit, ls_unit, flow_unit
 
 PID = "C20"
 
 
 def check(tier, seed):
+    sf = sf_unit.run_unit(tier)
+    ls = ls_unit.run_unit(tier)
+    fl = flow_unit.run_unit(tier)
     return main_property(
         PID, tier, seed, "proof",
-        "exceptional-path exploration of minimize_lbfgsb, ScalarFunction methods (unit SF) and line_search (unit LS).",
+        "exceptional-path exploration of minimize_lbfgsb, ScalarFunction methods (unit SF) and line_search (unit LS); "
+        "no handler encloses a user call and no mutable global state (unit FLOW).",
+        extra_reports=[(sf, lambda r: "raises::" in r.name or "inv_preserved_on_raise" in r.name),
+                       (ls, selector(PID)), (fl, selector(PID))],
         extra_assumptions=["library frames are transparent: approx_derivative and DCSRCH do not catch the user's exceptions"],
         what="clauses checked natively: exception injected at a random call index of each callable propagates as the "
              "same object; a later fault-free call equals the reference run")
